@@ -677,3 +677,44 @@ pub fn rename_free(f: &F, map: &HashMap<String, String>) -> F {
     }
     go(f, &mut Vec::new(), map)
 }
+
+/// Remove parentheses from a fully parenthesised text wherever the reference grammar (precedence,
+/// right associativity, hybrid operators extending to the right) reads the shorter text as the
+/// same tree: pairs are tried in random order and a removal is kept only if the reference parser
+/// still returns `f`. Returns the text and the number of removed pairs.
+pub fn drop_parens(f: &F, extended: bool, rng: &mut crate::rng::Rng) -> (String, usize) {
+    let mut chars: Vec<char> = f.canon().chars().collect();
+    let mut pairs = Vec::new();
+    let mut stack = Vec::new();
+    for (i, c) in chars.iter().enumerate() {
+        match c {
+            '(' => stack.push(i),
+            ')' => {
+                if let Some(o) = stack.pop() {
+                    pairs.push((o, i));
+                }
+            }
+            _ => {}
+        }
+    }
+    rng.shuffle(&mut pairs);
+    let want = f.canon();
+    let mut removed = 0;
+    for (o, c) in pairs {
+        if rng.chance(1, 5) {
+            continue;
+        }
+        let (oc, cc) = (chars[o], chars[c]);
+        chars[o] = ' ';
+        chars[c] = ' ';
+        let cand: String = chars.iter().collect();
+        match parse(&cand, extended) {
+            Ok(g) if g.canon() == want => removed += 1,
+            _ => {
+                chars[o] = oc;
+                chars[c] = cc;
+            }
+        }
+    }
+    (chars.iter().collect(), removed)
+}
